@@ -311,6 +311,13 @@ def keymap_cfgs(info_preserving=True):
                     'kw': {'protocol': 2}})
     out.append({'cls': 'picklemap', 'type': 'dill', 'flat': False, 'typed': False, 'sentinel': False,
                 'kw': {'protocol': 3}})
+    # chained keymaps (inner + outer: the outer one encodes the key the inner one built)
+    out.append({'cls': 'stringmap', 'type': 'repr', 'flat': True, 'typed': False, 'sentinel': True,
+                'outer': {'cls': 'hashmap', 'type': 'md5'}})
+    out.append({'cls': 'picklemap', 'type': None, 'flat': False, 'typed': False, 'sentinel': False,
+                'outer': {'cls': 'hashmap', 'type': 'sha1'}})
+    out.append({'cls': 'keymap', 'type': None, 'flat': True, 'typed': True, 'sentinel': True,
+                'outer': {'cls': 'stringmap', 'type': 'repr'}})
     return out
 
 
@@ -327,11 +334,27 @@ def build_keymap(klepto, km):
     if km['cls'] == 'hashmap' and km['type'] is not None:
         kw['algorithm'] = km['type']
     kw.update(km.get('kw') or {})
+    if km.get('outer'):
+        # a + b: the combined keymap flattens the call with b's flat/typed/sentinel settings, a encodes that
+        # key, b encodes the result - so the structural flags go to the second operand
+        o = km['outer']
+        flags = dict((f, kw.pop(f)) for f in ('typed', 'flat', 'sentinel') if f in kw)
+        inner = cls(**kw)
+        okw = dict(flags)
+        if o['cls'] == 'stringmap' and o.get('type') is not None:
+            okw['encoding'] = o['type']
+        if o['cls'] == 'picklemap' and o.get('type') is not None:
+            okw['serializer'] = o['type']
+        if o['cls'] == 'hashmap' and o.get('type') is not None:
+            okw['algorithm'] = o['type']
+        return inner + getattr(keymaps, o['cls'])(**okw)
     return cls(**kw)
 
 
 def key_kind(km):
     """type of key a keymap produces: raw | str | bytes | hex | int"""
+    if km.get('outer'):
+        return key_kind(dict(km['outer'], flat=True, typed=False, sentinel=False))
     if km['cls'] == 'keymap':
         return 'raw'
     if km['cls'] == 'stringmap':
